@@ -436,11 +436,12 @@ class SpectrumEditScenario(Scenario):
     rule = ('each run = 1-2 callers; an editor applies a seeded history (4..25 steps) of crop/trim/pad/append/resample/to to 1-3 spectra '
             '(uniform or non-uniform grids, unitless or flux-density values, linear or random non-negative data), a reader issues '
             'integrate/bin/sample/composite integrate checks between edits; a seeded fraction of edits must be refused (invalid resample '
-            'grid, overlapping append, bad unit, ...) and accepted edits are duplicated (idempotence); distinct = distinct history '
+            'grid, overlapping append, bad unit, ...) and accepted edits are duplicated (idempotence); further workload ingredients added by the seeded rounds are listed in MANIFEST.json and DESIGN.md section 15; distinct = distinct history '
             'digest; non-trivial = at least one refusal or duplicate fired and at least one model comparison was made')
     state_measure = 'distinct (edit kind, cut/pad position class, outcome) and bin option combinations reached'
     assumptions = ['edit arguments are generated either exactly on a sample value or clearly between samples, so closed-range and tolerance '
-                   'decisions never depend on rounding (soundness rule 3)',
+                   'decisions never depend on rounding (soundness rule 3); the deliberate exception -- crop limits a few ulp from a sample -- takes '
+                   'its limits and its expectation from the live samples, so the exact closed range is what is judged',
                    'empty-result crops and empty resample grids are not generated (the statement does not define them)',
                    'bin-centre sets for the power-preservation clause start and end on sample points; Simpson bins are judged for sign only on '
                    'uniform centres over uniformly sampled data with linear sampling, as the statement says',
